@@ -85,6 +85,7 @@ def pREv (s : String) : Option REv :=
   | ["makeseq"] => some .makeSequence
   | ["freeze", e] => (pAtom e).map .freeze
   | ["setdata", b] => (unhex (if b == "-" then "" else b)).map .setData
+  | ["swrite", b] => (unhex (if b == "-" then "" else b)).map .streamWrite
   | ["close"] => some .close
   | ["wsgi", m, lo, co] => do pure (.getWsgi m.toList ((← pOptAtom lo).getD []) ((← pOptAtom co).getD []))
   | ["take", n] => n.toNat?.map .take
